@@ -33,7 +33,8 @@ package sample
 //@   panic_unreachable_under_requires
 //@   modifies hstate(rand)
 //@   allocates
-//@   ensures result != nil
+//@   ensures result != nil && fresh(result)
+//@   loop 1: invariant out != nil && fresh(out)
 
 //@ func QNR
 //@   nopanic[C05]
